@@ -251,11 +251,12 @@ def clientUpsert (s : State) (c k : Nat) (v : Option Nat) (w : Option Int) (ttl 
       | some newExpiry =>
         let e' : Entry := { e with expiry := newExpiry, value := v.getD e.value }
         let s1 := { s with store := s.store.set k e' }
-        let existing : Int := match s1.adm.kw.get? e.id with | some wk => wk.weight | none => 0
+        -- `weight_of(&key_id)`: a key id that is no longer charged has no weight to adjust (fix c86efeb)
+        let existing : Option Int := (s1.adm.kw.get? e.id).map (·.weight)
         let (s2, uw2) : State × Option Int :=
           match typeOfExpiryUpdate e.expiry newExpiry with
-          | .added n => (ttlPut s1 e.id n, match uw with | some x => some x | none => some (existing + s.cfg.ttlEntry))
-          | .deleted old => (ttlDelete s1 e.id old, match uw with | some x => some x | none => some (existing - s.cfg.ttlEntry))
+          | .added n => (ttlPut s1 e.id n, match uw with | some x => some x | none => existing.map (· + s.cfg.ttlEntry))
+          | .deleted old => (ttlDelete s1 e.id old, match uw with | some x => some x | none => existing.map (· - s.cfg.ttlEntry))
           | .updated old n => (ttlUpdate s1 e.id old n, uw)
           | .nothing => (s1, uw)
         match uw2 with
@@ -423,11 +424,25 @@ def workerStep (s : State) (o : Oracle) : Except String (State × Out × Oracle)
     | .updateWeight id w => finish "UpdateWeight" (workerUpdateWeight s0 id w, o)
     | .delete k => finish "Delete" (workerDelete s0 k, o)
 
+/-- `Store::has_unexpired_value_with_key_id` (store/mod.rs): the value stored under `k` still carries the key id `id` and its own
+    deadline has not passed (`put_or_update` changes the stored deadline and the expiry index in two steps, so an index entry
+    that has come due does not mean the stored value has expired). The soft-delete mark plays no part. -/
+def unexpiredWithId (s : State) (k id : Nat) : Bool :=
+  match s.store.get? k with
+  | some e => e.id == id && (match e.expiry with | some t => !(decide (s.now > t)) | none => true)
+  | none => false
+
 /-- The sweeper's evict hook for one id (cached.rs:480-485, cache_weight.rs:236-245). -/
 def sweepEvict (s : State) (id : Nat) : State × Option Evicted :=
-  let (adm, ev?) := s.adm.delete id
-  match ev? with
-  | some e => (applyEvictId { s with adm := adm } e, some e)
+  -- `CacheWeight::delete_if` (fix 36c87dc): the key id is taken out only if the value stored under it has itself expired
+  match s.adm.kw.get? id with
+  | some wk =>
+    if unexpiredWithId s wk.key id then (s, none)
+    else
+      let (adm, ev?) := s.adm.delete id
+      (match ev? with
+       | some e => (applyEvictId { s with adm := adm } e, some e)
+       | none => (s, none))
   | none => (s, none)
 
 def sweepEntries (s : State) : List ((Nat × Nat) × Nat) → List Evicted → State × List Evicted
